@@ -118,7 +118,7 @@ def tm_in_range(tm):
     return lo, hi
 
 
-def mk_time(fn, dmax, tm=None, timer=None, prior=None, dnull=False, bos=None, objsize=None, anull=False, tag=""):
+def mk_time(fn, dmax, tm=None, timer=None, prior=None, dnull=False, bos=None, objsize=None, anull=False, tz=0, tag=""):
     """fn: asctime_s (tm: dict) or ctime_s (timer: int)"""
     objsize = objsize if objsize is not None else max(dmax, 1)
     dcells = (list(prior or []) + [X] * objsize)[:objsize]
@@ -132,15 +132,20 @@ def mk_time(fn, dmax, tm=None, timer=None, prior=None, dnull=False, bos=None, ob
         arg = Region(8, [timer & 0xFFFFFFFFFFFFFFFF])
         ok = 0 <= timer < 253402300800
         import time as _t
-        text = (_t.asctime(_t.gmtime(timer)) + "\n").encode() if ok else b"?\n"
-        check = 1 if ok else 0
+        # tz: hours east of UTC the call runs in (the shim sets TZ=XXX-14 for check = 2); glibc's ctime_r returns NULL when the
+        # local year has five digits: text None (a null pointer)
+        loc = timer + tz * 3600
+        full = (_t.asctime(_t.gmtime(loc)) + "\n").encode() if ok else b"?\n"
+        libc_fails = ok and loc >= 253402300800
+        text = full[:25] if libc_fails else full          # what glibc's snprintf(buf, 26, ...) leaves in its buffer
+        check = (3 if libc_fails else 2 if tz else 1) if ok else 0
     regs = [Region(1, dcells), arg, Region(1, (list(text) + [0]) if text is not None else [0])]
     d = "null" if dnull else ptr(0)
     a = "null" if anull else ptr(1)
     W = [] if dnull else [(0, 0, min(dmax, objsize))]
     Rd = list(W) + ([] if anull else [(1, 0, len(arg.cells))]) + [(2, 0, len(text or b"") + 1)]
     meta = dict(fam="os", fn=fn, w=1, dest=None if dnull else (0, 0), dmax=dmax, bos=bos, objsize=objsize, src=None if anull else (1, 0),
-                tm=tm, timer=timer, anull=anull, text=list(text) if text is not None else None, prior=dcells,
+                tm=tm, timer=timer, anull=anull, text=list(text) if text is not None else None, libc_fails=(fn == 'ctime_s' and check == 3), prior=dcells,
                 truthful=(dnull or dmax <= objsize) and (bos is None or bos <= objsize), tag=tag)
     return Op(fn, regs, [d, dmax, a, bosarg(bos), "null" if text is None else ptr(2), check if not anull else 0], W, Rd, meta)
 
@@ -168,6 +173,10 @@ def gen_time(rng, tier, ops):
             tm = dict(TM_OK); tm[f] = v
             for dmax in (64, 128):
                 ops.append(mk_time("asctime_s", dmax, tm=tm, prior=[0x51] * dmax, tag="field:" + f))
+    # the last hours of the year 9999 UTC in a zone 14 hours east of UTC: the local year is 10000, libc gives up
+    for t in (253402300799, 253402300799 - 14 * 3600, 253402300799 - 14 * 3600 + 1, 253402300799 - 7 * 3600, 1000000000):
+        for dmax in (26, 27, 64, 119, 120, 200):
+            ops.append(mk_time("ctime_s", dmax, timer=t, prior=[0x51] * dmax, tz=14, tag="tz+14"))
     for t in (0, 1, 59, 86399, 86400, 951782400, 2147483647, 2147483648, 4102444800, 253402300799, 253402300800, 313360441199, 313360441200,
               1 << 40, -1, -(1 << 62), (1 << 63) - 1):
         for dmax in (26, 64, 128):
@@ -183,17 +192,23 @@ def gen_time(rng, tier, ops):
                            prior=[rng.choice([0x51, 0, 0x41]) for _ in range(dmax)], tag="random"))
 
 
-def mk_gets(inp, dmax, prior=None, dnull=False, bos=None, objsize=None, tag=""):
-    """inp: the bytes stdin still holds (list of ints)"""
+def mk_gets(inp, dmax, prior=None, dnull=False, bos=None, objsize=None, front=None, tag=""):
+    """inp: the bytes stdin still holds (list of ints); None: a stream whose first read fails (errno EISDIR);
+    front: cells of the caller's memory directly in front of dest (same region, not declared)"""
     objsize = objsize if objsize is not None else max(dmax, 1)
-    dcells = (list(prior or []) + [X] * objsize)[:objsize]
-    regs = [Region(1, dcells), Region(1, list(inp) + [0])]     # the trailing 0 is not part of the stream (length passed separately)
-    d = "null" if dnull else ptr(0)
-    W = [] if dnull else [(0, 0, min(dmax, objsize))]
+    front = list(front or [])
+    doff = len(front)
+    dcells = front + (list(prior or []) + [X] * objsize)[:objsize]
+    rderr = inp is None
+    inp = [] if rderr else list(inp)
+    regs = [Region(1, dcells), Region(1, inp + [0])]           # the trailing 0 is not part of the stream (length passed separately)
+    d = "null" if dnull else ptr(0, doff)
+    W = [] if dnull else [(0, doff, min(dmax, objsize))]
     Rd = list(W) + [(1, 0, len(inp))]
-    meta = dict(fam="os", fn="gets_s", w=1, dest=None if dnull else (0, 0), dmax=dmax, bos=bos, objsize=objsize, src=(1, 0),
-                inp=list(inp), prior=dcells, truthful=(dnull or dmax <= objsize) and (bos is None or bos <= objsize), tag=tag)
-    return Op("gets_s", regs, [d, dmax, bosarg(bos), ptr(1), len(inp)], W, Rd, meta)
+    meta = dict(fam="os", fn="gets_s", w=1, dest=None if dnull else (0, doff), dmax=dmax, bos=bos, objsize=objsize, src=(1, 0),
+                inp=inp, rderr=rderr, prior=dcells[doff:],
+                truthful=(dnull or dmax <= objsize) and (bos is None or bos <= objsize), tag=tag)
+    return Op("gets_s", regs, [d, dmax, bosarg(bos), "null" if rderr else ptr(1), len(inp)], W, Rd, meta)
 
 
 def gen_gets(rng, tier, ops):
@@ -205,6 +220,15 @@ def gen_gets(rng, tier, ops):
                 for prior in (None, [0x51] * (dmax + 8)):
                     ops.append(mk_gets(line(n) + tail, dmax, prior=prior, objsize=dmax, tag="flush"))       # dest[dmax] unmapped
                     ops.append(mk_gets(line(n) + tail, dmax, prior=prior, objsize=dmax + 8, tag="roomy"))   # dest[dmax] mapped, not declared
+    # the caller's previous line, newline included, directly in front of dest; results of length 0 (dmax 1, a line starting
+    # with NUL, an empty line, end of file)
+    for dmax in (1, 2, 8):
+        for inp in ([NL], [], [0x61, NL], [0, 0x61, NL], [0], line(dmax + 3)):
+            ops.append(mk_gets(inp, dmax, prior=[0x51] * dmax, front=[0x41, 0x42, NL], tag="newline-in-front"))
+    # a stream whose read fails
+    for dmax in (1, 2, 8, 64):
+        ops.append(mk_gets(None, dmax, prior=[0x51] * dmax, tag="read-error"))
+        ops.append(mk_gets(None, dmax, tag="read-error"))
     ops.append(mk_gets([], 8, tag="eof"))
     ops.append(mk_gets([], 8, prior=[0x51] * 8, tag="eof-dirty"))
     ops.append(mk_gets([NL], 8, prior=[0x51] * 8, tag="empty-line"))
@@ -355,7 +379,7 @@ def annotate(op):
         # doc comment: ESNULLP dest null, ESZEROL dmax = 0, ESLEMAX dmax > RSIZE_MAX_STR, EOVERFLOW dmax > size of dest,
         # ESNOSPC "endline or eof not encountered after storing dmax-1 characters"; "always writes the terminating null
         # character"; with SAFECLIB_STR_NULL_SLACK "the rest of dmax is cleared"; NULL with errno 0 at end of file
-        m.update(slackdoc=True, clears=True, benign=(-1,), not_success=(-1,))
+        m.update(slackdoc=True, clears=True, benign=(-1, 21), not_success=(-1, 21))
         inp = m["inp"]
         if m["dest"] is None:
             viol.add(ESNULLP); names.append("dest-null")
@@ -368,6 +392,9 @@ def annotate(op):
                 viol.add(ESLEMAX); names.append("dmax-max")
         if bos is not None and dmax > bos:
             viol.add(EOVERFLOW); names.append("dmax-bos")
+        if m.get("rderr") and not viol:
+            m.update(viol=viol, viol_opt=opt, violname="read-error", ref=dict(ret=21))
+            return
         if 0 in inp:
             m.update(viol=viol, viol_opt=opt, violname="+".join(names + ["embedded-nul"]), ref=ref)
             del m["viol"]          # no reference: implementation-defined
@@ -415,8 +442,9 @@ def annotate(op):
                 viol.add(ESLEMIN); names.append("timer-min")
             if m["timer"] >= 253402300800:    # 01.01.10000 00:00 UTC
                 viol.add(ESLEMAX); names.append("timer-max")
-        if not viol and m["text"] is None:
-            ref["ret"] = 0xFFFFFFFF; ref["libc_null"] = True
+        m["benign"] = (-1,); m["not_success"] = (-1,)      # "-1 when asctime_r / ctime_r returned NULL": no constraint violation
+        if not viol and (m["text"] is None or m.get("libc_fails")):
+            ref["ret"] = -1; ref["libc_null"] = True
         elif not viol and m["truthful"]:
             ref["cells"] = list(m["text"]) + [0]
         if viol:
